@@ -94,8 +94,25 @@ impl Run {
     }
 }
 
+/// The built-ins of every VM of this harness: the standard library's, plus the two output
+/// commands of the script component (`\par`, so that blank lines are legal, and `\newline`).
+fn built_ins() -> std::collections::HashMap<&'static str, texlang::command::BuiltIn<StdLibState>> {
+    let mut m = texlang_stdlib::built_in_commands::<StdLibState>();
+    m.insert("par", texlang_stdlib::script::get_par());
+    m.insert("newline", texlang_stdlib::script::get_newline());
+    m
+}
+
+/// The host re-attaches what a VM cannot serialise: here the terminal (an exhausted mock, so that
+/// a `\read` that falls through to the terminal is an error instead of a wait on stdin).
+fn attach_host(vm: &mut VM<StdLibState>) {
+    vm.state.error_mode.set_default_terminal(std::rc::Rc::new(std::cell::RefCell::new(texlang_common::MockTerminalIn::default())));
+}
+
 fn new_vm() -> VM<StdLibState> {
-    VM::<StdLibState>::new_with_built_in_commands(texlang_stdlib::built_in_commands::<StdLibState>())
+    let mut vm = VM::<StdLibState>::new_with_built_in_commands(built_ins());
+    attach_host(&mut vm);
+    vm
 }
 
 fn run_src(vm: &mut VM<StdLibState>, name: &str, src: &str) -> Run {
@@ -113,28 +130,42 @@ fn run_src(vm: &mut VM<StdLibState>, name: &str, src: &str) -> Run {
     }
 }
 
+/// Error texts of the encoders → small classes (no positions, no numbers).
+fn enc_err(e: impl std::fmt::Display) -> String {
+    let t = e.to_string();
+    let t: String = t.chars().take_while(|c| *c != ':' && !c.is_ascii_digit()).collect();
+    t.trim().to_string()
+}
+
 /// Serialise and deserialise with the same built-ins (as `texlang_testing::run_serde_test`).
+/// `Err("refused: …")`: the encoder or decoder returned an error; `Err(place)`: a panic.
 fn checkpoint(vm: VM<StdLibState>, fmt: Fmt) -> Result<VM<StdLibState>, String> {
-    let built_ins = texlang_stdlib::built_in_commands::<StdLibState>;
-    match fmt {
+    let flat = |r: Result<Result<VM<StdLibState>, String>, String>| r.and_then(|x| x);
+    let vm = match fmt {
         Fmt::None => Ok(vm),
-        Fmt::Json => caught(|| {
-            let s = serde_json::to_string_pretty(&vm).unwrap();
+        Fmt::Json => flat(caught(|| {
+            let s = serde_json::to_string_pretty(&vm).map_err(|e| format!("refused: cannot serialise ({})", enc_err(e)))?;
             let mut d = serde_json::Deserializer::from_str(&s);
-            VM::deserialize_with_built_in_commands(&mut d, built_ins()).unwrap()
-        }),
-        Fmt::MsgPack => caught(|| {
-            let s = rmp_serde::to_vec(&vm).unwrap();
+            VM::deserialize_with_built_in_commands(&mut d, built_ins()).map_err(|e| format!("refused: cannot deserialise ({})", enc_err(e)))
+        })),
+        Fmt::MsgPack => flat(caught(|| {
+            let s = rmp_serde::to_vec(&vm).map_err(|e| format!("refused: cannot serialise ({})", enc_err(e)))?;
             let mut d = rmp_serde::decode::Deserializer::from_read_ref(&s);
-            VM::deserialize_with_built_in_commands(&mut d, built_ins()).unwrap()
-        }),
-        Fmt::Bincode => caught(|| {
-            let s = bincode::serde::encode_to_vec(&vm, bincode::config::standard()).unwrap();
-            let d: Box<texlang::vm::serde::DeserializedVM<StdLibState>> =
-                bincode::serde::decode_from_slice(&s, bincode::config::standard()).unwrap().0;
-            texlang::vm::serde::finish_deserialization(d, built_ins())
-        }),
-    }
+            VM::deserialize_with_built_in_commands(&mut d, built_ins()).map_err(|e| format!("refused: cannot deserialise ({})", enc_err(e)))
+        })),
+        Fmt::Bincode => flat(caught(|| {
+            let s = bincode::serde::encode_to_vec(&vm, bincode::config::standard())
+                .map_err(|e| format!("refused: cannot serialise ({})", enc_err(e)))?;
+            let d: Box<texlang::vm::serde::DeserializedVM<StdLibState>> = bincode::serde::decode_from_slice(&s, bincode::config::standard())
+                .map_err(|e| format!("refused: cannot deserialise ({})", enc_err(e)))?
+                .0;
+            Ok(texlang::vm::serde::finish_deserialization(d, built_ins()))
+        })),
+    };
+    vm.map(|mut vm| {
+        attach_host(&mut vm);
+        vm
+    })
 }
 
 fn fxhash_bytes(b: &[u8]) -> u64 {
@@ -284,7 +315,14 @@ fn state_digests(vm: &VM<StdLibState>) -> BTreeMap<String, String> {
     let names = Names::of(vm);
     let s = &vm.state;
     let mut m = BTreeMap::new();
-    m.insert("alloc".into(), small(&s.alloc, &names));
+    // `array_refs` is written in HashMap order: sort it
+    m.insert("alloc".into(), {
+        let mut v = serde_json::to_value(&s.alloc).map(|v| canon(&v, &names)).unwrap_or(serde_json::Value::Null);
+        if let Some(a) = v.get_mut("array_refs").and_then(|a| a.as_array_mut()) {
+            a.sort_by_key(|x| x.to_string());
+        }
+        digest(v.to_string())
+    });
     m.insert("catcode".into(), small(&s.codes_cat_code, &names));
     m.insert("mathcode".into(), small(&s.codes_math_code, &names));
     m.insert("conditional".into(), small(&s.conditional, &names));
@@ -387,7 +425,11 @@ fn strip_ws(s: &str) -> String {
 fn differences(a: &Obs, b: &Obs) -> Vec<(Kind, String, String)> {
     let mut out = vec![];
     if let Some(p) = &b.ck {
-        out.push((Kind::ImplPanic, format!("checkpoint panics at {}", strip_msg(p)), p.clone()));
+        if let Some(why) = p.strip_prefix("refused: ") {
+            out.push((Kind::ImplVsSpec, format!("checkpoint fails: {why}"), p.clone()));
+        } else {
+            out.push((Kind::ImplPanic, format!("checkpoint panics at {}", strip_msg(p)), p.clone()));
+        }
         return out;
     }
     let lost: Vec<&str> = a.mid.iter().filter(|(k, v)| b.mid.get(*k) != Some(v)).map(|(k, _)| k.as_str()).collect();
@@ -1083,6 +1125,243 @@ fn gen_codes(rng: &mut Rng) -> String {
     format!("tex {}<NL><CP>{}<NL>", p1.join("<NL>"), p2.join("<NL>"))
 }
 
+/// `\openin` streams: 1..3 files of 0..6 lines (blank lines, comment-only lines, brace groups
+/// spanning lines, with or without a final newline, a missing file), 1..3 streams opened on them
+/// (two streams may share a file), k guarded reads per stream before the checkpoint for a random
+/// k in 0..=lines+1 (interleaved, sometimes inside a group or after a `\closein`), and after the
+/// checkpoint interleaved guarded reads until every stream is exhausted, then `\ifeof` of each.
+fn gen_files(rng: &mut Rng) -> String {
+    const LINES: &[&str] = &["one", "two words", "", "a{b}c", "% only a comment", "x\\relax y", "  indented", "tail %c", "7"];
+    let n_files = rng.range(1, 3) as usize;
+    let mut files: Vec<(String, Vec<String>, bool)> = vec![];
+    for i in 0..n_files {
+        let n = rng.range(0, 6) as usize;
+        let mut lines: Vec<String> = (0..n).map(|_| rng.pick(LINES).to_string()).collect();
+        if n >= 2 && rng.chance(1, 3) {
+            // a brace group spanning lines
+            let a = rng.below(n as u64 - 1) as usize;
+            let b = rng.range(a as i64 + 1, n as i64 - 1) as usize;
+            lines[a] = format!("{}{{open", lines[a]);
+            lines[b] = format!("shut}}{}", lines[b]);
+        }
+        files.push((format!("f{}", (b'a' + i as u8) as char), lines, rng.chance(3, 4)));
+    }
+    let streams: Vec<(i64, usize)> = {
+        let mut v = vec![];
+        for &n in &[3i64, 0, 15] {
+            if v.is_empty() || rng.chance(1, 2) {
+                v.push((n, rng.below(n_files as u64) as usize));
+            }
+        }
+        v
+    };
+    let mut case = String::from("tex ");
+    for (name, lines, final_nl) in &files {
+        let mut c = lines.join("<NL>");
+        if *final_nl && !lines.is_empty() {
+            c.push_str("<NL>");
+        }
+        case.push_str(&format!("<FILE {name}>{c}<ENDFILE>"));
+    }
+    let mut p1: Vec<String> = vec!["\\def\\rd#1{\\ifeof#1 (closed#1)\\else\\read#1 to \\x [#1:\\x]\\fi}".into()];
+    let mut budget: Vec<usize> = vec![];
+    for (n, f) in &streams {
+        p1.push(format!("\\openin {n}=<DIR>/{} ", files[*f].0));
+        budget.push(rng.range(0, files[*f].1.len() as i64 + 1) as usize);
+    }
+    if rng.chance(1, 5) {
+        p1.push("\\openin 7=<DIR>/missing ".into());
+    }
+    let mut closers = vec![];
+    let mut closed: Vec<bool> = vec![false; streams.len()];
+    while budget.iter().any(|b| *b > 0) {
+        let i = rng.below(streams.len() as u64) as usize;
+        if budget[i] == 0 {
+            continue;
+        }
+        budget[i] -= 1;
+        if rng.chance(1, 8) {
+            p1.push("{".into());
+            closers.push("}");
+        }
+        p1.push(format!("\\rd{{{}}}", streams[i].0));
+        if rng.chance(1, 12) {
+            p1.push(format!("\\closein {} ", streams[i].0));
+            closed[i] = true;
+            budget[i] = 0;
+        }
+    }
+    let mut p2: Vec<String> = vec![];
+    let mut left: Vec<usize> = streams.iter().map(|(_, f)| files[*f].1.len() + 2).collect();
+    while left.iter().any(|b| *b > 0) {
+        let i = rng.below(streams.len() as u64) as usize;
+        if left[i] == 0 {
+            continue;
+        }
+        left[i] -= 1;
+        p2.push(format!("\\rd{{{}}}", streams[i].0));
+    }
+    for c in closers.iter().rev() {
+        p2.push(c.to_string());
+    }
+    let mut status = String::new();
+    for (n, _) in &streams {
+        status.push_str(&format!("\\ifeof {n} E\\else O\\fi"));
+    }
+    status.push_str("\\ifeof 7 E\\else O\\fi");
+    p2.push(status);
+    format!("{case}{}<NL><CP>{}<NL>", p1.join("<NL>"), p2.join("<NL>"))
+}
+
+/// The allocator: sequences of `\newInt` / `\newIntArray` (lengths 0..4) over four names,
+/// including re-allocations of a name (same or other kind), local and `\global` element
+/// assignments at group depths 0..3 before the checkpoint; after it every element of every
+/// live array is read, one more allocation and assignment is made, and the groups are closed one
+/// by one with all elements read again after each `}`.
+fn gen_alloc(rng: &mut Rng) -> String {
+    // name → Some(len) array / None singleton; one map per open scope (definitions are local)
+    let names = ["\\nA", "\\nB", "\\nC", "\\nD"];
+    let mut scopes: Vec<BTreeMap<&str, Option<usize>>> = vec![BTreeMap::new()];
+    let mut p1: Vec<String> = vec![];
+    let n = rng.range(3, 14);
+    let assign = |scopes: &Vec<BTreeMap<&str, Option<usize>>>, rng: &mut Rng| -> Option<String> {
+        let cur = scopes.last().unwrap();
+        if cur.is_empty() {
+            return None;
+        }
+        let keys: Vec<&&str> = cur.keys().collect();
+        let name = **rng.pick(&keys);
+        let g = if rng.chance(1, 4) { "\\global" } else { "" };
+        let v = rng.range(-9, 99);
+        match cur[name] {
+            None => Some(format!("{g}{name}={v} ")),
+            Some(0) => None,
+            Some(len) => Some(format!("{g}{name} {}={v} ", rng.below(len as u64))),
+        }
+    };
+    for _ in 0..n {
+        match rng.below(10) {
+            0 | 1 if scopes.len() < 4 => {
+                p1.push("{".into());
+                let top = scopes.last().unwrap().clone();
+                scopes.push(top);
+            }
+            2 if scopes.len() > 1 && rng.chance(1, 3) => {
+                p1.push("}".into());
+                scopes.pop();
+            }
+            3 | 4 | 5 => {
+                let name = *rng.pick(&names);
+                if rng.chance(1, 3) {
+                    p1.push(format!("\\newInt{name} "));
+                    scopes.last_mut().unwrap().insert(name, None);
+                } else {
+                    let len = *rng.pick(&[0usize, 1, 2, 3, 4]);
+                    p1.push(format!("\\newIntArray{name} {len} "));
+                    scopes.last_mut().unwrap().insert(name, Some(len));
+                }
+            }
+            _ => {
+                if let Some(a) = assign(&scopes, rng) {
+                    p1.push(a);
+                }
+            }
+        }
+    }
+    let read_all = |scope: &BTreeMap<&str, Option<usize>>| -> String {
+        let mut l = String::from("/");
+        for (name, k) in scope {
+            match k {
+                None => l.push_str(&format!("\\the{name},")),
+                Some(len) => {
+                    for i in 0..*len {
+                        l.push_str(&format!("\\the{name} {i},"));
+                    }
+                }
+            }
+        }
+        l
+    };
+    let mut p2: Vec<String> = vec![read_all(scopes.last().unwrap())];
+    // the allocator keeps working after the checkpoint
+    p2.push("\\newIntArray\\nE 2 \\nE 1=41 \\newInt\\nF \\nF=42 /\\the\\nE 0,\\the\\nE 1,\\the\\nF".into());
+    if let Some(a) = assign(&scopes, rng) {
+        p2.push(a);
+        p2.push(read_all(scopes.last().unwrap()));
+    }
+    while scopes.len() > 1 {
+        scopes.pop();
+        p2.push("}".into());
+        p2.push(read_all(scopes.last().unwrap()));
+    }
+    format!("tex {}<NL><CP>{}<NL>", p1.join("<NL>"), p2.join("<NL>"))
+}
+
+/// The script writer: every way P1 can leave the output (nothing written yet; text, so a space
+/// is pending; a control word or a comment, so nothing is pending; `\par`; one or several
+/// `\newline`s; a paragraph break then a newline) × every way P2 can start (text, a blank line,
+/// `\newline`, a macro producing a space, `\par\par`, a control word, nothing on the first line).
+/// Exhaustive; the exact output is compared.
+fn writer_cases() -> Vec<String> {
+    let defs = "\\def\\s{ }\\def\\w{w}";
+    let p1s = [
+        "",
+        "Hello",
+        "Hello\\relax",
+        "Hello% comment",
+        "Hello<NL>",
+        "Hello\\newline",
+        "Hello\\newline\\newline\\newline",
+        "Hello\\par\\newline",
+        "Hello \\s\\s",
+        "\\endlinechar=-1 Hello",
+        "{Hello\\relax",
+    ];
+    let p2s = ["World", "<NL>World", "\\newline World", "\\s World", "\\par\\par World", "\\w orld", "\\relax<NL>World", "<NL><NL>\\s\\newline World", "}World"];
+    let mut v = vec![];
+    for a in p1s {
+        for b in p2s {
+            // a `}` start only makes sense after a `{` ending and vice versa
+            if a.starts_with('{') != b.starts_with('}') {
+                continue;
+            }
+            v.push(format!("tex {defs}{a}<NL><CP>{b} more<NL>"));
+        }
+    }
+    v
+}
+
+/// Conditionals: 1..5 conditionals left open by P1, nested in any order, each in one of its
+/// distinguishable states (true branch, else branch of an `\if`, a case branch, the default
+/// branch of an `\ifcase`); P2 closes them from the inside out, each closer passing over the
+/// branches that must be skipped; sometimes a closer that is illegal in that state
+/// (`\else` in an else branch, `\or` outside a switch).
+fn gen_conds(rng: &mut Rng) -> String {
+    const KINDS: &[(&str, &str, &str)] = &[
+        ("\\iftrue t", "T\\else F\\fi", "T\\or x\\fi"),
+        ("\\iffalse f\\else e", "E\\fi", "E\\else x\\fi"),
+        ("\\ifcase 1 a\\or b", "B\\or c\\else d\\fi", "B\\fi\\fi"),
+        ("\\ifcase 0 z", "Z\\or c\\fi", "Z\\else\\else\\fi"),
+        ("\\ifcase 7 a\\or b\\else d", "D\\fi", "D\\or x\\fi"),
+        ("\\ifnum 1<2 n", "N\\else M\\fi", "N\\else M\\else\\fi"),
+        ("\\ifodd 2 o\\else p", "P\\fi", "P\\else\\fi"),
+    ];
+    let n = rng.range(1, 5) as usize;
+    let mut p1: Vec<String> = vec![];
+    let mut closers: Vec<String> = vec![];
+    for _ in 0..n {
+        let (open, close, bad) = *rng.pick(KINDS);
+        if rng.chance(1, 5) {
+            p1.push("{".into());
+            closers.push("}".into());
+        }
+        p1.push(open.into());
+        closers.push(if rng.chance(1, 10) { bad.into() } else { close.into() });
+    }
+    let p2: Vec<String> = closers.into_iter().rev().collect();
+    format!("tex {}<NL><CP>{}<NL>end<NL>", p1.join("<NL>"), p2.join("<NL>"))
+}
+
 /// Unmodelled state: (line for P1, lines for P2 that make it observable). P2 lines are repeated
 /// after every `}` that closes a group left open by P1.
 const FEATURES: &[(&str, &str)] = &[
@@ -1138,6 +1417,15 @@ const FEATURES: &[(&str, &str)] = &[
     (r"\def\mV{v}\let\mW=\mV {\def\mV{w}\global\let\mW=\mV}", r"\mV\mW"),
     (r"text with spaces % and a comment", r"more"),
     (r"\relax", r"\relax z"),
+    (r"\endlinechar=65 ", r"x"),
+    (r"\tracingmacros=2 ", r"\the\tracingmacros"),
+    (r"\dumpFormat=2 \dumpValidate=0 ", r"\the\dumpFormat \the\dumpValidate"),
+    (r"\batchmode \fi", r"\fi z"),
+    (r"\scrollmode \else", r"\or z"),
+    (r"\nonstopmode \fi\fi", r"\fi z"),
+    (r"\errorstopmode", r""),
+    (r"\newline", r"n"),
+    (r"", r"blank"),
     (r"word ", r"next"),
     (r"word", r"next"),
 ];
@@ -1232,6 +1520,12 @@ impl C08 {
     /// A vs B for the three formats: tags, I vs S failures. Returns A and whether all agree.
     fn compare_runs(&self, p1: &str, p2: &str, drv: &mut Driver, o: &mut CaseOutcome) -> (Obs, bool) {
         let (a, bs) = run_all(p1, p2);
+        if debug() {
+            eprintln!("P1: {p1:?}\nP2: {p2:?}\nA: {:?} / {:?}", a.r1, a.r2);
+            for (f, b) in &bs {
+                eprintln!("{}: ck={:?} {:?}", f.name(), b.ck, b.r2);
+            }
+        }
         if !matches!(a.r1, Run::Ok(_)) {
             o.tag(format!("p1-fails:{}", a.r1.class()));
             return (a, false);
@@ -1278,11 +1572,31 @@ impl C08 {
 
     fn run_tex(&self, body: &str, drv: &mut Driver) -> CaseOutcome {
         let mut o = CaseOutcome::default();
-        let Some((p1, p2)) = body.split_once("<CP>") else {
+        // leading `<FILE name>content<ENDFILE>` blocks: files for \openin / \input, written to a
+        // scratch directory that `<DIR>` stands for in P1 and P2
+        let mut rest = body;
+        let mut files: Vec<(String, String)> = vec![];
+        while let Some(r) = rest.strip_prefix("<FILE ") {
+            let (Some(e), Some(f)) = (r.find('>'), r.find("<ENDFILE>")) else {
+                o.fail(Kind::ImplVsModel, "case", "malformed case", body);
+                return o;
+            };
+            files.push((r[..e].to_string(), decode(&r[e + 1..f])));
+            rest = &r[f + "<ENDFILE>".len()..];
+        }
+        let Some((p1, p2)) = rest.split_once("<CP>") else {
             o.fail(Kind::ImplVsModel, "case", "malformed case", body);
             return o;
         };
-        let (p1, p2) = (decode(p1), decode(p2));
+        let dir = format!("/tmp/c08io/{}-{:016x}", std::process::id(), fxhash(body));
+        if !files.is_empty() {
+            std::fs::create_dir_all(&dir).expect("scratch directory");
+            for (name, content) in &files {
+                std::fs::write(format!("{dir}/{name}.tex"), content).expect("scratch file");
+            }
+            o.tag(format!("tex-files:{}", files.len().min(3)));
+        }
+        let (p1, p2) = (decode(p1).replace("<DIR>", &dir), decode(p2).replace("<DIR>", &dir));
         o.tag("kind:tex");
         let depth = p1.matches('{').count() as i64 - p1.matches('}').count() as i64;
         o.tag(format!("tex-open-braces:{}", depth.clamp(0, 4)));
@@ -1290,6 +1604,9 @@ impl C08 {
             o.tag("tex-conditional-in-p1");
         }
         self.compare_runs(&p1, &p2, drv, &mut o);
+        if !files.is_empty() {
+            let _ = std::fs::remove_dir_all(&dir);
+        }
         o
     }
 
@@ -1438,7 +1755,7 @@ impl C08 {
         let mut o = CaseOutcome::default();
         o.tag("kind:names");
         o.nontrivial = true;
-        let built_ins = texlang_stdlib::built_in_commands::<StdLibState>();
+        let built_ins = built_ins();
         let mut names: Vec<&str> = built_ins.keys().copied().filter(|n| n.chars().all(|c| c.is_ascii_alphabetic())).collect();
         names.sort();
         let alias = |i: usize| format!("\\q{}{}", (b'a' + (i / 26) as u8) as char, (b'a' + (i % 26) as u8) as char);
@@ -1543,6 +1860,11 @@ impl Property for C08 {
          definitions of 5 control sequences and 4 active characters by \\def \\gdef \\chardef \\mathchardef \\countdef \\toksdef \\let (to a character, to another target, to a built-in primitive), 0..2 \\global prefixes; the checkpoint; P2 = reads, then every open group closed with reads after each } (sometimes one } too many, sometimes more definitions). \
          layers: 1..3 names (built-in primitive names such as \\relax \\count \\def \\let \\else \\fi \\global, fresh names, active characters) get an independently chosen meaning at every scope level 0..3 (own primitive meaning through an alias saved by the preamble, another primitive, macro, \\countdef alias, \\chardef, another name's meaning, unchanged), checkpoint inside the open groups, every name read at every level while closing them; the rendered program uses only \\z-aliases of the primitives it needs, so any primitive name can be redefined. \
          codes: \\catcode and \\mathcode of characters of every initial category and on both sides of 128/256/65536 set to every category incl. the default 12/0 and the character's own initial value, in and out of groups, with and without \\global; read with \\the at every level after the checkpoint, then the characters are used. \
+         writer: exhaustive 11 ways P1 can leave the script output (nothing written, text, control word, comment, \\par, 1 or 3 \\newline, \\par\\newline, spaces from a macro, \\endlinechar=-1, inside a group) x 9 ways P2 can start (text, blank line, \\newline, macro producing a space, \\par\\par, control word, ...), exact output compared. \
+         files: 1..3 files of 0..6 lines (blank, comment-only, brace groups spanning lines, with/without final newline, a missing file), 1..3 \\openin streams (sharing files), k guarded \\read per stream before the checkpoint for random k in 0..lines+1, interleaved, sometimes in a group or after \\closein; after it interleaved guarded reads to exhaustion and \\ifeof of every stream. \
+         alloc: 3..14 steps over \\newInt/\\newIntArray (length 0..4) on four names incl. re-allocation with the same or the other kind, local/\\global element assignments at depth 0..3; after the checkpoint all elements read, one more allocation, groups closed one by one with all elements read after each. \
+         conds: 1..5 open conditionals nested in any order, each in one of 7 states (true / else branch, case branch, first case, default branch, \\ifnum, \\ifodd-else), closed inside-out, 1 in 10 closers illegal for the state. \
+         All VMs have the stdlib built-ins plus the script component's \\par and \\newline, and an exhausted mock terminal. \
          tex: random selections from a table of unmodelled state (parameterised and delimited macros, \\long, catcode changes incl. active letters and code points > 127, \\endlinechar, token lists with control sequences, \\newInt/\\newIntArray, interaction modes, glue, \\let to 20 primitives incl. conditionals, interned-but-undefined names, pending output white space) inside open groups and open conditionals (\\iftrue, \\iffalse\\else, \\ifcase, \\ifnum, \\ifodd, nested) that P2 closes; every probe is repeated after every closing brace. \
          Each case runs 4 VMs (no checkpoint, JSON, MessagePack, bincode). Non-trivial = P1 runs to its end without error (a checkpoint is taken); distinct = distinct case string."
             .into()
@@ -1638,7 +1960,8 @@ impl Property for C08 {
     }
     fn generate(&mut self, ctx: &Ctx, rng: &mut Rng) -> Vec<String> {
         let mut v = vec![];
-        let (n_ops, n_layers, n_tex, n_codes) = if ctx.thorough { (3000, 1500, 2200, 1500) } else { (240, 150, 200, 150) };
+        let (n_ops, n_layers, n_tex, n_codes, n_files, n_alloc, n_conds) =
+            if ctx.thorough { (2500, 1200, 2000, 1200, 900, 900, 500) } else { (200, 130, 170, 120, 110, 110, 50) };
         let mut r = rng.fork();
         for i in 0..n_ops {
             let size = [3, 6, 10, 16, 24][i % 5];
@@ -1656,6 +1979,19 @@ impl Property for C08 {
         let mut r = rng.fork();
         for _ in 0..n_codes {
             v.push(gen_codes(&mut r));
+        }
+        v.extend(writer_cases());
+        let mut r = rng.fork();
+        for _ in 0..n_files {
+            v.push(gen_files(&mut r));
+        }
+        let mut r = rng.fork();
+        for _ in 0..n_alloc {
+            v.push(gen_alloc(&mut r));
+        }
+        let mut r = rng.fork();
+        for _ in 0..n_conds {
+            v.push(gen_conds(&mut r));
         }
         v
     }
@@ -1741,10 +2077,24 @@ impl Property for C08 {
                 out.push(format!("ops {}", join(&enc_ops(&v))));
             }
         } else if let Some(b) = case.strip_prefix("tex ") {
+            // file blocks stay as they are
+            let (files, b) = match b.rfind("<ENDFILE>") {
+                Some(i) => b.split_at(i + "<ENDFILE>".len()),
+                None => ("", b),
+            };
             let Some((p1, p2)) = b.split_once("<CP>") else { return out };
-            let l1: Vec<&str> = p1.split("<NL>").filter(|l| !l.is_empty()).collect();
-            let l2: Vec<&str> = p2.split("<NL>").filter(|l| !l.is_empty()).collect();
-            let build = |a: &[&str], b: &[&str]| format!("tex {}<NL><CP>{}<NL>", a.join("<NL>"), b.join("<NL>"));
+            // lines (blank lines are lines: they are paragraph breaks); the text ends with <NL>
+            let lines = |p: &str| -> Vec<String> {
+                let mut l: Vec<String> = p.split("<NL>").map(|x| x.to_string()).collect();
+                if l.last().map(|x| x.is_empty()).unwrap_or(false) {
+                    l.pop();
+                }
+                l
+            };
+            let (o1, o2) = (lines(p1), lines(p2));
+            let l1: Vec<&str> = o1.iter().map(|x| x.as_str()).collect();
+            let l2: Vec<&str> = o2.iter().map(|x| x.as_str()).collect();
+            let build = |a: &[&str], b: &[&str]| format!("tex {files}{}<NL><CP>{}<NL>", a.join("<NL>"), b.join("<NL>"));
             if l2.len() > 1 {
                 out.push(build(&l1, &l2[..l2.len() / 2]));
                 out.push(build(&l1, &l2[l2.len() / 2..]));
